@@ -286,6 +286,8 @@ type pair struct {
 	peer      string
 	addr      string // dialled address
 	raw       bool
+	hmu       sync.Mutex
+	hops      map[uint32][2]int // hop-by-hop id of a request -> (task, op) that sent it
 	task, op  int
 	key       uint64
 	c, s      *end // client end, server end
@@ -323,6 +325,8 @@ type end struct {
 	holding   bool
 	stalled   bool
 	heldDelay int64
+	holdTask  int // the operation whose return releases what is held
+	holdOp    int
 }
 
 func (e *end) wake() {
@@ -565,6 +569,27 @@ func (e *end) record(raw []byte) *Msg {
 		SentAt:   rt.Now(), DeliverAt: -1, Raw: raw,
 	}
 	m.F = ParseFields(raw[20:])
+	// A message belongs to the operation that sent the request it is (or answers), not to the one
+	// that happened to dial the connection: an implementation may keep connections open.
+	if e.isClient {
+		if t := rt.Current(); t != nil {
+			m.Task, m.Op = t.ID, CurOp(t)
+		}
+		if m.Request {
+			e.p.hmu.Lock()
+			if e.p.hops == nil {
+				e.p.hops = map[uint32][2]int{}
+			}
+			e.p.hops[m.HopByHop] = [2]int{m.Task, m.Op}
+			e.p.hmu.Unlock()
+		}
+	} else if !m.Request {
+		e.p.hmu.Lock()
+		if own, ok := e.p.hops[m.HopByHop]; ok {
+			m.Task, m.Op = own[0], own[1]
+		}
+		e.p.hmu.Unlock()
+	}
 	n.mu.Lock()
 	m.Ord = len(n.msgs)
 	n.msgs = append(n.msgs, m)
@@ -613,6 +638,7 @@ func (e *end) emit(c *chunk, m *Msg) {
 		e.schedule(c, f.DelayNs)
 	case KWithhold:
 		e.holding = true
+		e.holdTask, e.holdOp = m.Task, m.Op
 		e.heldDelay = f.DelayNs
 		e.held = append(e.held, c)
 	case KDrop:
@@ -648,7 +674,7 @@ func (n *Net) match(e *end, m *Msg) *Fault {
 		if f.fired || f.Dir != dir || f.Peer != e.p.peer {
 			continue
 		}
-		if (f.Task != -1 && f.Task != e.p.task) || (f.Op != -1 && f.Op != e.p.op) {
+		if (f.Task != -1 && f.Task != m.Task) || (f.Op != -1 && f.Op != m.Op) {
 			continue
 		}
 		if f.Cmd != 0 && f.Cmd != m.Cmd {
@@ -671,12 +697,12 @@ func (n *Net) OpDone(task, op int) {
 	pairs := append([]*pair(nil), n.pairs...)
 	n.mu.Unlock()
 	for _, p := range pairs {
-		if p.task != task || p.op != op || p.c == nil {
+		if p.c == nil {
 			continue
 		}
 		for _, e := range []*end{p.c, p.s} {
 			e.mu.Lock()
-			if e.holding {
+			if e.holding && e.holdTask == task && e.holdOp == op {
 				e.holding = false
 				held := e.held
 				e.held = nil
